@@ -22,7 +22,7 @@ RULE = ("(a) integers: every value of -64..2^17 (quick) / -1024..2^24 (thorough)
         "PieceLengthValueError, never another exception. Automatic: result in 2^14..2^24, power of two, non-decreasing in size. "
         "Non-trivial: the value (or chunk) is not one of the suite's literals (2^14..2^20, 14..23, 131072). Distinct = distinct case JSON.")
 ASSUMPTIONS = [
-    "Python-falsy keyword values through the library (None, 0, '') mean 'not supplied' and are not judged there; the normaliser and the CLI/config string '0' are judged",
+    "None and the empty string through the library / an empty CLI or config value mean 'not supplied' (the interactive front end passes '') and are judged by the normaliser only; the integer 0 is a value like any other on every route",
     "exponents 26..29 and direct powers of two >= 2^30 are accepted either way (manual: '14-29', 'less than 1 GiB'; property: 14..25, no upper bound)",
     "non-plain-ASCII-decimal strings that int() would accept (sign, whitespace, underscore, Unicode digits) are only required not to escape with a foreign exception or a wrong value",
 ]
@@ -51,6 +51,10 @@ def expected(v):
 
 
 def expected_str(s):
+    if len(s) > 4000 and re.fullmatch(r"[0-9]+", s):
+        # beyond int()'s default digit limit (the harness must not lift it: the tool runs in this process); the two
+        # samples of ODD_STRINGS are not powers of two
+        return ("reject",)
     if re.fullmatch(r"[0-9]+", s) and (s == "0" or not s.startswith("0")):
         return expected(int(s))
     try:
@@ -81,7 +85,9 @@ def grid(tier):
 
 ODD_STRINGS = ["false", "False", "true", "no", "off", "+16384", " 16384", "16384 ", "1_6384", "0x4000", "1e5", "16384.0", "2**14", "١٦٣٨٤", "１６３８４", "²", "½", "Ⅷ", "³²⁷⁶⁸",
                "-16384", "-14", "--14", "", " ", "abc", "14a", "0", "00014", "016384", "१४", "௧", "16,384", "16384\n", "\t14", "1 4", "14.0", "inf", "nan",
-               "True", "None"]
+               "True", "None",
+               # more digits than int() converts by default (sys.get_int_max_str_digits): still "a numeric string"
+               "9" * 4400, "1" + "0" * 5000]
 
 
 def strategy(tier):
@@ -164,7 +170,7 @@ def run_case(case):
     route = case["route"]
     shown = repr(raw)
     classes = ["route-" + route, "type-" + val["t"], exp[0]]
-    nontrivial = not (val["t"] == "int" and raw in SUITE_LITERALS) and not (val["t"] == "str" and raw.isdigit() and raw.isascii() and int(raw) in SUITE_LITERALS)
+    nontrivial = not (val["t"] == "int" and raw in SUITE_LITERALS) and not (val["t"] == "str" and len(raw) < 100 and raw.isdigit() and raw.isascii() and int(raw) in SUITE_LITERALS)
     if route in ("cli", "config"):
         s = str(raw)
         if val["t"] == "int":
@@ -174,8 +180,8 @@ def run_case(case):
         if route == "config" and (s != s.strip() or "\n" in s or "\r" in s or "%" in s or s == "" or s[:1] in "#;" or any(ord(c) < 32 for c in s)
                                   or "=" in s or ":" in s):
             route = "norm"
-    if (route == "lib" and not raw) or raw == "":
-        route = "norm"
+    if raw == "":
+        route = "norm"      # the empty string is how the front ends spell "not supplied"
     if len(exp) > 1 and exp[1] > 2 ** 26:
         route = "norm"   # a creator would allocate a piece buffer of that size
     exc = got = None
